@@ -68,7 +68,7 @@ def run_c02(rep):
 
 def run_c03(rep):
     n, ops = sizes(rep, (320, 16), (5000, 60))
-    families.play_family(rep, n, ops, features=dict(top_jumps=0.4, block_jumps=0.4, hooks=0.4, join=0.35, inputs=0.6, conds=0.8, loops=0.5, render=0.5),
+    families.play_family(rep, n, ops, features=dict(top_jumps=0.4, block_jumps=0.4, hooks=0.4, hook_early=0.5, join=0.35, inputs=0.6, conds=0.8, loops=0.5, render=0.5, block_counters=0.8),
                          weights=dict(read=45, choose=35, goto=8, save=6), oracle_names=["oracle_c03", "oracle_c10"],
                          known_classes=known_classes("C03") | known_classes("C10"), label="c03")
     # (the commands in the block of a `-> @join` choice run exactly once too: each block bumps its own counter — C10's oracle)
@@ -287,6 +287,7 @@ def run_c20(rep):
     import fam_stdlib
     n, ops = sizes(rep, (600, 30), (20000, 100))
     fam_stdlib.stdlib_family(rep, n, ops)
+    fam_stdlib.independence_probe(rep, sizes(rep, 60, 1000))
 
 
 def run_c06(rep):
